@@ -50,6 +50,10 @@ PRJS = {
     # national-grid style (zone 1 at 111E, 4-degree zones)
     'p3': gc.Projection(500000, 0, 1.0, 3, 3),
     'p4': gc.Projection(400000, 5000000, 0.9998, 4, 111),
+    # layouts with a zone whose central meridian is EXACTLY 0.0 (zone 31 of a UTM-like layout starting at -180; zone 1 of a
+    # 2-degree layout starting at Greenwich): zero is a longitude, not 'not given'
+    'p7': gc.Projection(500000, 10000000, 0.9996, 6, -180),
+    'p8': gc.Projection(300000, 0, 0.99995, 2, 0),
 }
 # projections configured by copying a shipped one and adjusting attributes afterwards (a Projection is a plain attribute
 # holder: anything derived from its attributes at construction time would be stale here)
@@ -72,7 +76,7 @@ ISG_CM = {541: 139.0, 542: 141.0, 543: 143.0, 551: 145.0, 552: 147.0, 553: 149.0
 # (ellipsoid, projection) configurations for the TM properties
 TM_CONFIGS = ([(e, 'utm') for e in E9] + [('ans', 'isg'), ('grs80', 'isg')] +
               [('grs80', 'p0'), ('e64_400', 'p0'), ('grs80', 'p1'), ('e63_150', 'p1'), ('intl24', 'p2'), ('e635_275', 'p2'),
-               ('wgs84', 'p3'), ('ans', 'p4'), ('grs80', 'p5'), ('intl24', 'p6'), ('ans', 'isg2')])
+               ('wgs84', 'p3'), ('ans', 'p4'), ('grs80', 'p5'), ('intl24', 'p6'), ('ans', 'isg2'), ('wgs84', 'p7'), ('grs80', 'p8')])
 
 
 def n_zones(prj):
@@ -424,6 +428,9 @@ def fill(lo, hi, step, seed, salt=0, include_shift=True):
 
 def lat_lattice_tm(tier, seed):
     s = [-80.0, -80.0 + 1e-6, -75.0, -60.0, -45.0, -1.0, -1e-6, -1e-9, -1e-12, 0.0, 1e-12, 1e-9, 1e-6, 1.0,
-         45.0, 60.0, 75.0, 84.0 - 1e-6, 84.0]
+         45.0, 60.0, 75.0, 84.0 - 1e-6, 84.0,
+         # limits of the UTM system's irregular zones (32V: 56..64 N; 31X-37X: 72..84 N), which this library does NOT implement:
+         # the zone is the regular 6-degree one everywhere
+         56.0 - 1e-9, 56.0, 63.5, 64.0 - 1e-9, 64.0, 72.0 - 1e-9, 72.0, 78.5]
     step = 4.0 if tier == 'quick' else 1.0
     return uniq(s + fill(-80.0, 84.0, step, seed, 1))
